@@ -79,7 +79,7 @@ DefMachine(cls, le) == IF cls = 64 THEN (IF le THEN 62 ELSE 21) ELSE IF le THEN 
 WalkCfEight == {Cf(c[1], c[2], core, DefMachine(c[1], c[2]), IF core = c[2] THEN 0 ELSE 165) : c \in ClsLe, core \in BOOLEAN}
 WalkCfQuick == {Cf(32, TRUE, FALSE, 3, 0), Cf(32, FALSE, TRUE, 8, 165), Cf(64, TRUE, TRUE, 62, 0), Cf(64, FALSE, FALSE, 21, 165)}
 TypesCf == {Cf(c[1], c[2], core, DefMachine(c[1], c[2]), 0) : c \in ClsLe, core \in BOOLEAN}
-DescMachines(cls, le) == IF cls = 32 THEN (IF le THEN {3, 40, 8} ELSE {22, 20}) ELSE (IF le THEN {62, 183} ELSE {21})
+DescMachines(cls, le) == IF cls = 32 THEN (IF le THEN {3, 40, 8} ELSE {22, 20}) ELSE (IF le THEN {62, 183} ELSE {21, 22})   \* 22 in both classes: s390 (16-bit ids) vs s390x (32-bit ids)
 DescCf == UNION {{Cf(c[1], c[2], core, m, pad) : m \in DescMachines(c[1], c[2]), core \in BOOLEAN, pad \in DescPads} : c \in ClsLe}
 StabCf == {Cf(c[1], c[2], FALSE, DefMachine(c[1], c[2]), 0) : c \in ClsLe}
 AllModes == {"walk", "types", "desc", "stabs"}
